@@ -451,4 +451,16 @@ Example C10_byte_ex_short :
   no_stale_commitb (fs_file sc) (len (image fx_info (fs_bs sc))) = true /\
   recover_state fx_info (fs_file sc) = Some (fs_w sc).
 Proof. exact fx_short. Qed.
+
+(* The composition of this per-file law with the WAL-level histories of this file
+   (fault_safety_stmt: counted faults, fault modes, FRestart) is in Props/Link.v,
+   section 8 (link3): every history with injected faults has a byte-level run
+   (Link_fault_history: lock-step byte actions keep the weak relation "image, then
+   anything"; at every restart the byte-level recovery of every file -- fail_recover
+   above -- gives back the strong relation to adopt_disk, under stale_free =
+   no_stale_commit for every file); GetLog of the running process and every entry
+   of the nominal state of fault_safety are the decoding of what the byte-level
+   readers return (Link_fault_get_log, Link_fault_nominal_bytes); the recovered
+   byte-level writer represents the tail writer Open installs
+   (Link_fault_restart_recovered). *)
 (* ===== END block "byte level" ===== *)
